@@ -87,8 +87,15 @@ def run(run, tier, seed):
         for pi in range(nperm):
             k = gen.ALLK[(pi * 7) % 30]
             rc = pi % 4 != 0
-            ns = rng.randint(2, 5)
-            samples = gen.related_samples(rng, k, ns)
+            wide = pi in (3, 7) or (tier != "quick" and pi % 10 == 3)
+            if wide:
+                # enough samples for the recursive parallel build to split three and four levels deep
+                ns = rng.choice([70, 72, 81, 96, 150])
+                core = gen.rand_seq(rng, k + 2)
+                samples = [[core + gen.rand_seq(rng, k + 1)] for _ in range(ns)]
+            else:
+                ns = rng.randint(2, 5)
+                samples = gen.related_samples(rng, k, ns)
             names = ["s%d" % i for i in range(ns)]
             perm = list(range(ns))
             rng.shuffle(perm)
@@ -99,7 +106,7 @@ def run(run, tier, seed):
                     vlib.write_fasta(fa, samples[j])
                     f.write("%s\t%s\n" % (names[j], fa))
             out = os.path.join(tmp, "po%d" % pi)
-            threads = rng.choice([1, 2, 4])
+            threads = rng.choice([8, 16]) if wide else rng.choice([1, 2, 4])
             rcode, so, se = vlib.ska_cli(["build", "-o", out, "-k", str(k), "-f", fl, "--threads", str(threads)]
                                          + ([] if rc else ["--single-strand"]))
             ctx = {"orig": [[b(r) for r in s] for s in samples], "orignames": names, "perm": [p + 1 for p in perm],
